@@ -2,7 +2,7 @@ PROP = dict(
     properties="Properties/C12.v",
     harness_mods=["Harness/C12.v"],
     gen=[["gen-vm-tables", "-out", "coq/gen"]],
-    runs=[dict(cmd="c12", quick=120, thorough=4000)],
+    runs=[dict(cmd="c12", quick=300, thorough=30000)],
     trusted_base=[
         "hand-written Gallina model of pkg/vm (coq/VM/{Arith,Items,Decode,Data,Model}.v) incl. the hand-adjusted reference "
         "counter of vm.go/ref_counter.go; tied to the code by stepping the real VM (state, stack, gas, VM.refs before every instruction)",
@@ -15,8 +15,8 @@ PROP = dict(
         "prices can spin on JMP 0 and is outside the property's premise",
         "bare VM: SYSCALL/CALLT fault; Go runtime memory safety of math/big, slices and maps is assumed",
     ],
-    modelled="vm.go is modelled, not translated; refs_never_undercount and static_check_sound are stated but not proved in Coq "
-             "(the first is checked on the real VM and on the model at every step of every generated execution)",
+    modelled="vm.go and scparser.IsScriptCorrect are modelled, not translated; refs_never_undercount is stated but not proved in Coq "
+             "(it is checked on the real VM and on the model at every step of every generated execution)",
 )
 META = dict(
     text="Proved in Coq on the VM model for every script and state: totality (every execution under a finite gas limit with "
@@ -27,8 +27,11 @@ META = dict(
          "stepped through arbitrary byte strings and deep well-typed programs (shared/nested compounds, all collection "
          "instructions, calls, exceptions, unloading): no panic escapes Run, HALT => GasConsumed <= GasLimit, item counter >= "
          "independent walk at every step and == while no cycle was built, limits; refs trace, state, stack and gas equal the "
-         "model's. Partial: counter soundness (reach_count <= refs) and soundness of the static script check are not proved "
-         "in Coq, only checked on every generated execution.",
+         "model's; soundness of the static script check (model of scparser.IsScriptCorrect, compared with it on every case): a "
+         "script that passes never stands at a non-boundary offset - proved in Coq and checked directly on the real VM. "
+         "Partial: counter soundness (reach_count <= refs) is not proved in Coq for the compound-type instructions, only "
+         "checked at every step of every generated execution (real VM: counter vs independent walk; model: walk vs the "
+         "counter the real VM showed).",
     note="The model is hand-written and tied to vm.go by differential execution only. Trusted: model, translator of the tables, "
          "Go walk, hooks, Coq kernel/vm_compute, harness and orchestration.",
 )
